@@ -124,6 +124,17 @@ var propTable = map[string]propDesc{
 		},
 		NotDecided: []string{"absence of every data race", "results under interleavings"},
 	},
+	"C12": {
+		Decides: []string{
+			"R35a: encodeSynonym and decodeSynonym are inverse: id in the high half, document in the low half, split at bit 32, same order of operands and results",
+			"R35b: the synonym iterator hands out a decoded (synonym, document) pair only if there is no exclusion bitmap or the bitmap does not contain that pair's document",
+			"R35c: synonym fields stay out of the ordinary term dictionaries: an exclusion check for index.SynonymField is registered at initialisation, the list is written nowhere else, the predicate answers true as soon as one check does, and invertedIndexOpaque.process is called only where it answered false",
+			"R12: a reused SynonymsList / SynonymsIterator is fully reset (tabled buffers cleaned)",
+			"R31: the reused result slot of the synonym iterator is cleared as a whole before it is handed out",
+		},
+		NotDecided: []string{"which (synonym, document) pairs a batch defines", "synonym id assignment and the id->term table", "ascending order of left-hand terms (vellum refuses unsorted insertion; exercised by the pinned tests)", "equality of answers after persist and re-open"},
+		Explain:    "Narrow claim: three structural necessary conditions named in the property's own anchors.",
+	},
 	"C13": {
 		Decides: []string{
 			"R18: merged thesaurus addresses and field->thesaurus map are wired into the field table",
